@@ -149,11 +149,13 @@ def generate(tier, out_rs, out_meta, group=6, lex_group=4):
          "#![allow(unused_imports)]", "use super::*;", "use super::oracle::Coding;"]
     cmap = {"gzip": "Coding::Gzip", "identity": "Coding::Identity", "*": "Coding::Star", "br": "Coding::Other"}
     maxlen = max(len(t) for t, _ in sks)
+    sks = sorted(sks, key=lambda x: len(x[0]))
     groups = [sks[i:i + group] for i in range(0, len(sks), group)]
     for gi, g in enumerate(groups):
         name = f"ae_sk_g{gi:02d}"
         meta["sk"][name] = [{"text": t, "forms": f} for t, f in g]
-        L += ["#[kani::proof]", f"#[kani::unwind({maxlen + 3})]",
+        gmax = max(len(t) for t, _ in g)
+        L += ["#[kani::proof]", f"#[kani::unwind({max(gmax + 3, 12)})]",
               "#[kani::stub(crate::parse_qvalue, stub_qvalue)]",
               "#[kani::stub(core::slice::memchr::memchr, naive_memchr)]",
               f"fn {name}() {{", "    let sc = draw_ae();", "    match sc.sk {"]
@@ -161,12 +163,14 @@ def generate(tier, out_rs, out_meta, group=6, lex_group=4):
             forms = ", ".join("(%s, %s)" % (cmap[c], "None" if k is None else f"Some({k})") for c, k in f)
             L.append(f"        {i} => check_ae(&sc, {rust_str(t)}, &[{forms}]),")
         L += ["        _ => kani::assume(false),", "    }", "}"]
+    lex = sorted(lex, key=lambda x: len(x[0]))
     lgroups = [lex[i:i + lex_group] for i in range(0, len(lex), lex_group)]
     lmax = max(len(t) for t, _ in lex)
     for gi, g in enumerate(lgroups):
         name = f"ae_lex_g{gi:02d}"
         meta["lex"][name] = [{"bytes": list(t), "expected": e} for t, e in g]
-        L += ["#[kani::proof]", f"#[kani::unwind({lmax + 3})]",
+        gmax = max(len(t) for t, _ in g)
+        L += ["#[kani::proof]", f"#[kani::unwind({max(gmax + 3, 12)})]",
               "#[kani::stub(core::slice::memchr::memchr, naive_memchr)]",
               f"fn {name}() {{", "    let sk: u16 = kani::any();", "    match sk {"]
         for i, (t, e) in enumerate(g):
